@@ -139,15 +139,41 @@ Fixpoint near_q (t : list (Q * Q)) (x : Q) : Q :=
   | (a, r) :: t' => if Qle_bool (Qabs (x - a)%Q) (tol * Qabs a)%Q then r else near_q t' x
   end.
 
-Definition grad_agree (g : grad_case) : bool :=
-  let sq := near_q (g_sqrt g) in
-  close tol (lcbscQ sq (g_beta g) (g_mean g) (g_var g) 0%Q) (g_val g)
-  && close tol (lcbsc_gradQ sq (g_beta g) (g_mean g) (g_var g) (g_gmean g) (g_gvar g) 0%Q) (g_grad g).
+(** Scale-free closeness (wave 3).  The surrogate's outputs may live at any scale (targets of order
+    1e-4 ... 1e4, boxes of width 1e-3 ... 1e3: predictive variances from 1e-16 to 1e6), so nothing is
+    compared with an absolute tolerance: [rel_close scale a b] is |a - b| <= 1e-9 * scale, where the
+    scale of an LCBSC value is |mean| + |sqrt(beta var)| and the scale of a gradient coordinate is
+    |grad_mean| + |1/2 grad_var sqrt(beta/var)| (the magnitudes of the two terms of the translated
+    formulas, which may cancel in the result).  Both scales are read off the translated text itself. *)
+Definition rel_close (scale a b : Q) : bool := Qle_bool (Qabs (a - b)%Q) (tol * scale)%Q.
 
-(** the hypotheses of the derivative theorem hold at the sampled point, and the sqrt oracle is a square root *)
+Definition val_scale (sq : Q -> Q) (beta mean var : Q) : Q :=
+  (Qabs mean + Qabs (lcbscQ sq beta 0 var 0))%Q.
+Definition grad_scale (sq : Q -> Q) (beta mean var gm gv : Q) : Q :=
+  (Qabs gm + Qabs (lcbsc_gradQ sq beta mean var 0 gv 0))%Q.
+
+(** the sqrt oracle is a square root: r >= 0 and r*r = a up to 1e-9 |a| *)
+Definition sqrt_entry_ok (ar : Q * Q) : bool :=
+  Qle_bool 0%Q (snd ar) && rel_close (Qabs (fst ar)) (snd ar * snd ar)%Q (fst ar).
+
+Definition grad_val_ok (g : grad_case) : bool :=
+  let sq := near_q (g_sqrt g) in
+  rel_close (val_scale sq (g_beta g) (g_mean g) (g_var g)) (g_val g) (lcbscQ sq (g_beta g) (g_mean g) (g_var g) 0%Q).
+Definition grad_grad_ok (g : grad_case) : bool :=
+  let sq := near_q (g_sqrt g) in
+  rel_close (grad_scale sq (g_beta g) (g_mean g) (g_var g) (g_gmean g) (g_gvar g)) (g_grad g)
+            (lcbsc_gradQ sq (g_beta g) (g_mean g) (g_var g) (g_gmean g) (g_gvar g) 0%Q).
+
+Definition grad_agree (g : grad_case) : bool := grad_val_ok g && grad_grad_ok g.
+
+(** the hypotheses of the derivative theorem hold at the sampled point, the sqrt oracle is a square root,
+    and the value / the gradient the code returned are the translated formulas -- of which the second is
+    proved to be the derivative of the first (Properties/C11.v: C11_lcbsc_gradient_is_derivative) -- on the
+    surrogate's outputs, at the relative tolerance *)
 Definition grad_ok (g : grad_case) : bool :=
   negb (Qle_bool (g_beta g) 0%Q) && negb (Qle_bool (g_var g) 0%Q)
-  && forallb (fun ar => Qle_bool 0%Q (snd ar) && close tol (snd ar * snd ar)%Q (fst ar)) (g_sqrt g).
+  && forallb sqrt_entry_ok (g_sqrt g)
+  && grad_val_ok g && grad_grad_ok g.
 
 (** ---- histories of calls on ONE LCBSC object over ONE surrogate that changes in between ----
 
@@ -155,6 +181,15 @@ Definition grad_ok (g : grad_case) : bool :=
     re-optimise its hyper-parameters, or call acquire.  The model has NO state across steps: the value
     and the gradient of a step are the translated formulas on the surrogate's CURRENT predict /
     predictive_gradients outputs (recorded at the step, straight from the surrogate).                  *)
+
+(** per coordinate, what the finite-difference second opinion needs *)
+Record fdaux := {
+  x_h : Q;                                     (* step size of h_fd along this coordinate (1e-5 of the box width); h_fd2 uses x_h / 10 *)
+  x_rough : Q;                                 (* measured numerical roughness of evaluate near x (largest |second difference| at spacing 1e-7, 2e-7 widths) *)
+  x_sm : Q; x_sv : Q;                          (* central differences of the surrogate's own mean / variance, step x_h *)
+  x_sm2 : Q; x_sv2 : Q                         (* the same, step x_h / 10 *)
+}.
+
 Record hstep := {
   h_beta : Q; h_mean : Q; h_var : Q;           (* _beta(t); current model.predict(x, noiseless=True) *)
   h_gmean : list Q; h_gvar : list Q;           (* current model.predictive_gradients(x), per coordinate *)
@@ -162,8 +197,9 @@ Record hstep := {
   h_val : option Q;                            (* evaluate(x, t) of the long-lived object (None: not called at this step) *)
   h_grad : option (list Q);                    (* evaluate_gradient(x, t) of the long-lived object *)
   h_fval : Q; h_fgrad : list Q;                (* the same methods of a freshly constructed LCBSC over the same surrogate *)
-  h_fd : list Q;                               (* central differences of the fresh object's evaluate, h = 1e-5 *)
-  h_fd2 : list Q                               (* the same with h = 1e-6 *)
+  h_fd : list Q;                               (* central differences of the fresh object's evaluate, step x_h *)
+  h_fd2 : list Q;                              (* the same with step x_h / 10 *)
+  h_aux : list fdaux
 }.
 
 Record hist_case := {
@@ -187,51 +223,84 @@ Definition step_grad (s : hstep) : list Q := step_grad_go s (h_gmean s) (h_gvar 
 (** the model of a whole history: one (value, gradient) per step, each from that step's surrogate alone *)
 Definition hist_model (steps : list hstep) : list (Q * list Q) := map (fun s => (step_val s, step_grad s)) steps.
 
-Definition closeb (a b : Q) : bool := close tol a b.
+Definition step_vscale (s : hstep) : Q := val_scale (near_q (h_sqrt s)) (h_beta s) (h_mean s) (h_var s).
+Definition step_gscale (s : hstep) (gm gv : Q) : Q := grad_scale (near_q (h_sqrt s)) (h_beta s) (h_mean s) (h_var s) gm gv.
 
-(** finite differences: 2e-4 relative to |a| + |b|, 1e-6 absolute, plus [extra] (below) *)
-Definition fd_close (extra a b : Q) : bool :=
-  Qle_bool (Qabs (a - b)%Q) ((2 # 10000) * (Qabs a + Qabs b) + (1 # 1000000) + extra)%Q.
-
-(** what binary64 costs: the coded gradient is a difference of grad_mean and 1/2 grad_var sqrt(beta/var),
-    which may cancel (2e-5 of their magnitudes), and the central difference of sqrt(beta var) amplifies
-    the rounding error of the surrogate's variance by sqrt(beta/var) (1e-8 of it) *)
-Definition fd_extra (s : hstep) (gm gv : Q) : Q :=
-  ((2 # 100000) * (Qabs gm + Qabs (lcbsc_gradQ (near_q (h_sqrt s)) (h_beta s) (h_mean s) (h_var s) 0 gv 0))
-   + (1 # 100000000) * Qabs (near_q (h_sqrt s) (h_beta s / h_var s)))%Q.
-
-(** per coordinate: the gradient matches the central difference for at least one of the two step sizes
-    (truncation error dominates the larger step where the surrogate's length scale is small, rounding
-    error the smaller one) *)
-Fixpoint fd_match_go (s : hstep) (gm gv g f1 f2 : list Q) : bool :=
-  match gm, gv, g, f1, f2 with
-  | [], [], [], [], [] => true
-  | m :: gm', v :: gv', a :: g', b :: f1', c :: f2' =>
-      (fd_close (fd_extra s m v) a b || fd_close (fd_extra s m v) a c) && fd_match_go s gm' gv' g' f1' f2'
-  | _, _, _, _, _ => false
+(** two gradients agree, coordinate by coordinate, at 1e-9 of that coordinate's scale *)
+Fixpoint grad_rel_go (s : hstep) (gm gv g g' : list Q) : bool :=
+  match gm, gv, g, g' with
+  | [], [], [], [] => true
+  | m :: gm', v :: gv', a :: g1, b :: g2 => rel_close (step_gscale s m v) a b && grad_rel_go s gm' gv' g1 g2
+  | _, _, _, _ => false
   end.
-Definition fd_match (s : hstep) (g : list Q) : bool := fd_match_go s (h_gmean s) (h_gvar s) g (h_fd s) (h_fd2 s).
+Definition grad_rel (s : hstep) (g g' : list Q) : bool := grad_rel_go s (h_gmean s) (h_gvar s) g g'.
+
+(** ---- finite differences: a second opinion, scale-free ----
+
+    Steps are relative to the box width.  The central difference of evaluate is compared with the
+    gradient at [ft] = 5e-4 of |g| + |fd| + the coordinate's scale, plus what binary64 costs: the measured
+    roughness of evaluate near the point (4x) and 1e-14 of the value's scale, divided by the step.
+    The second opinion is only asked where the SURROGATE's own outputs (GPy: an oracle) are numerically
+    self-consistent for that step: its mean / variance gradients equal the central differences of its
+    mean / variance at [ct] = 1e-4, and the step changes the variance by at most [st] = 1e-3 of itself
+    (sqrt is then linear enough).  Where they are not for either step (ill-conditioned kernel matrices:
+    target values of order 1e-4 under GPy's unit default kernel variance; query points on top of an
+    evidence point) the finite difference has no opinion; the exact clauses of [step_ok] still apply. *)
+Definition ct : Q := (1 # 10000)%Q.
+Definition st : Q := (1 # 1000)%Q.
+Definition ft : Q := (5 # 10000)%Q.
+
+Definition rel2 (t a b : Q) : bool := Qle_bool (Qabs (a - b)%Q) (t * (Qabs a + Qabs b))%Q.
+
+Definition surr_cons (s : hstep) (m v hh sm sv : Q) : bool :=
+  rel2 ct m sm && rel2 ct v sv && Qle_bool (Qabs (hh * v)%Q) (st * h_var s)%Q.
+
+Definition fd_noise (s : hstep) (rough : Q) : Q := ((4 # 1) * rough + (1 # 100000000000000) * step_vscale s)%Q.
+
+Definition fd_tol_ok (s : hstep) (m v hh rough a b : Q) : bool :=
+  Qle_bool (Qabs (a - b)%Q) (ft * (Qabs a + Qabs b) + ft * step_gscale s m v + fd_noise s rough / hh)%Q.
+
+Definition fd_coord (s : hstep) (m v a b c : Q) (x : fdaux) : bool :=
+  let h1 := x_h x in
+  let h2 := (x_h x / (10 # 1))%Q in
+  let c1 := surr_cons s m v h1 (x_sm x) (x_sv x) in
+  let c2 := surr_cons s m v h2 (x_sm2 x) (x_sv2 x) in
+  negb (Qle_bool (x_h x) 0%Q)
+  && ((c1 && fd_tol_ok s m v h1 (x_rough x) a b) || (c2 && fd_tol_ok s m v h2 (x_rough x) a c) || (negb c1 && negb c2)).
+
+Fixpoint fd_match_go (s : hstep) (gm gv g f1 f2 : list Q) (aux : list fdaux) : bool :=
+  match gm, gv, g, f1, f2, aux with
+  | [], [], [], [], [], [] => true
+  | m :: gm', v :: gv', a :: g', b :: f1', c :: f2', x :: aux' =>
+      fd_coord s m v a b c x && fd_match_go s gm' gv' g' f1' f2' aux'
+  | _, _, _, _, _, _ => false
+  end.
+Definition fd_match (s : hstep) (g : list Q) : bool := fd_match_go s (h_gmean s) (h_gvar s) g (h_fd s) (h_fd2 s) (h_aux s).
 
 Definition opt_all {X} (f : X -> bool) (o : option X) : bool := match o with None => true | Some x => f x end.
 
 Definition step_agree (s : hstep) : bool :=
-  closeb (step_val s) (h_fval s)
-  && opt_all (closeb (step_val s)) (h_val s)
-  && list_eqb closeb (step_grad s) (h_fgrad s)
-  && opt_all (list_eqb closeb (step_grad s)) (h_grad s).
+  rel_close (step_vscale s) (step_val s) (h_fval s)
+  && opt_all (rel_close (step_vscale s) (step_val s)) (h_val s)
+  && grad_rel s (step_grad s) (h_fgrad s)
+  && opt_all (grad_rel s (step_grad s)) (h_grad s).
 
 Definition hist_agree (h : hist_case) : bool :=
   forallb step_agree (hs_steps h) && box_eqb (hs_bounds h) (hs_mbounds h).
 
 (** the property on the implementation's answers alone: what the long-lived object returns is what a
-    fresh object returns on the surrogate as it is NOW, its gradient is the (finite-difference)
-    derivative of the current acquisition function; and the points acquired along the way are in the
-    user's box, as many as asked *)
+    fresh object returns on the surrogate as it is NOW; the value is mean - sqrt(beta var) and the gradient
+    is grad_mean - 1/2 grad_var sqrt(beta / var) of the surrogate's current outputs (the translated pair, of
+    which the second is proved to be the derivative of the first) at 1e-9 of their scales -- at EVERY scale
+    of the surrogate; central differences of the current acquisition function agree where they have an
+    opinion; and the points acquired along the way are in the user's box, as many as asked *)
 Definition step_ok (s : hstep) : bool :=
   negb (Qle_bool (h_beta s) 0%Q) && negb (Qle_bool (h_var s) 0%Q)
-  && forallb (fun ar => Qle_bool 0%Q (snd ar) && close tol (snd ar * snd ar)%Q (fst ar)) (h_sqrt s)
-  && opt_all (fun v => closeb v (h_fval s)) (h_val s)
-  && opt_all (fun g => list_eqb closeb g (h_fgrad s) && fd_match s g) (h_grad s)
+  && forallb sqrt_entry_ok (h_sqrt s)
+  && opt_all (fun v => rel_close (step_vscale s) v (h_fval s) && rel_close (step_vscale s) v (step_val s)) (h_val s)
+  && opt_all (fun g => grad_rel s g (h_fgrad s) && grad_rel s g (step_grad s) && fd_match s g) (h_grad s)
+  && rel_close (step_vscale s) (h_fval s) (step_val s)
+  && grad_rel s (h_fgrad s) (step_grad s)
   && fd_match s (h_fgrad s).
 
 Definition hacq_ok (h : hist_case) (a : nat * list row) : bool :=
